@@ -99,6 +99,22 @@ static void death_callback()
     // no report flush here: the containers may be mid-update
 }
 
+// SIGPIPE keeps its default meaning (the process dies), as in an application that has done nothing
+// about it: a write of the code under test to a socket whose peer has gone must not depend on the
+// application ignoring the signal.  The handler only saves the running case so that the death has a
+// replay input, then lets the signal kill the process.
+static void on_sigpipe(int sig)
+{
+    if (g_cur_data.load() != nullptr)
+    {
+        std::string id = getenv("VERIF_PROP") ? getenv("VERIF_PROP") : harness_info().id;
+        write_fail(id + "/killed-by-signal/SIGPIPE", "the process was killed by SIGPIPE: the code under test wrote to a socket whose peer had closed, without MSG_NOSIGNAL",
+                   (const void*)g_cur_data.load(), g_cur_size.load());
+    }
+    signal(sig, SIG_DFL);
+    raise(sig);
+}
+
 static void load_known()
 {
     const char* k = getenv("VERIF_KNOWN");
@@ -207,7 +223,7 @@ int main(int argc, char** argv)
             rest.push_back(argv[i]);
     }
     load_known();
-    signal(SIGPIPE, SIG_IGN); // as Tcp::Listener::bind() does for a server process; the client side relies on the application for it
+    signal(SIGPIPE, on_sigpipe); // NOT ignored (an earlier version did, on the false belief that pistache's listener does)
     if (&__sanitizer_set_death_callback)
         __sanitizer_set_death_callback(death_callback);
     harness_init();
